@@ -5,7 +5,7 @@ World: SW, refinement via worlds.swref (buffer bookkeeping in
 Ref.expect_packet_in / after_buffer_use).
 """
 
-from simkit.rng import Rng
+from simkit.rng import Rng, mix
 from worlds import swref
 from checks import swgen as G
 from models import of10wire as W
@@ -101,7 +101,7 @@ def gen_plan(seed, tier):
   n = r.randint(8, 60 if tier == "thorough" else 30)
   for i in range(n):
     k = r.wpick([(8, "frame"), (6, "po_buf"), (3, "fm_buf"), (1, "set_config"),
-                 (1, "po_data"), (1, "port_mod")])
+                 (2, "po_data"), (1, "port_mod")])
     if k == "frame":
       fs, port = r.pick(frames)
       steps.append({"op": "frame", "port": port, "f": fs,
@@ -153,6 +153,11 @@ def gen_plan(seed, tier):
                     "acts": [["output", W.OFPP_CONTROLLER,
                               r.pick([0, 16, 0xffff])]]
                     + _after_controller(r, nports), "f": fs})
+      if Rng(mix(seed, "potable", i)).chance(0.4):
+        # the controller's own packet sent through the table: a miss there
+        # is a miss like any other (buffered if a slot is free)
+        steps[-1].update(acts=[["output", W.OFPP_TABLE, 0]],
+                         in_port=r.pick([W.OFPP_NONE, W.OFPP_NONE, port]))
   return {"prop": PROP, "seed": seed, "cfg": cfg, "steps": steps}
 
 
